@@ -15,6 +15,7 @@ import contextlib
 import numpy as np
 
 from vlib import env
+from vlib.gen import quiet as gen_quiet
 
 ID = "C25"
 LEVEL = "exploration"
@@ -328,7 +329,12 @@ def _build(spec, rng, ctx):
                          A_IJ0=None if A_IJ0 is None else A_IJ0.copy())
         rig.default_angle0 = True
     else:
-        joint = Revolute(sub1, body2, axis, angle0=angle0, r_OJ0=None if r_OJ0 is None else r_OJ0.copy(),
+        # the initial angle as a user may hand it over: Python float, numpy scalar, 0-d array (np.asarray(x)), result of a
+        # numpy expression
+        rep = int(rng.integers(4))
+        rig.angle0_arg = [angle0, np.float64(angle0), np.array(angle0), np.asarray(angle0) * 1.0][rep]
+        ctx.cls("angle0_repr:" + ["float", "np.float64", "0-d array", "np.float64 (expression)"][rep])
+        joint = Revolute(sub1, body2, axis, angle0=rig.angle0_arg, r_OJ0=None if r_OJ0 is None else r_OJ0.copy(),
                          A_IJ0=None if A_IJ0 is None else A_IJ0.copy())
 
     # harness model of the body-fixed joint frames
@@ -590,6 +596,13 @@ def _run(spec, ctx):
                 rig.R1_cur, rig.r1_cur = rig.R1_0, rig.r1_0
                 drive(h1, compare_to=first, after_reset=True)
         if not state["bad"]:
+            if rng.random() < 0.5:
+                # the system is assembled again in between (e.g. after adding a force element): tracked turns survive that by
+                # design, and a reset() afterwards must still restore the INITIAL tracking state
+                from cardillo.solver import SolverOptions as _SO
+                with gen_quiet():
+                    system.assemble(options=_SO(compute_consistent_initial_conditions=False))
+                ctx.cls("reset:after_reassembly")
             joint.reset()
             rig.R1_cur, rig.r1_cur = rig.R1_0, rig.r1_0
             ctx.mon("reset_interleaved")
